@@ -21,6 +21,7 @@ type replayCase struct {
 	Out  *outCase    `json:"out,omitempty"`
 	Asm  *asmConfig  `json:"asm,omitempty"`
 	Line *lineConfig `json:"line,omitempty"`
+	Cont *contCase   `json:"cont,omitempty"`
 	Hist []string    `json:"hist,omitempty"`
 }
 
@@ -100,6 +101,8 @@ func TestCheck(t *testing.T) {
 				}
 			case "line":
 				checkLine(c, t, *rc.Line, hist)
+			case "cont":
+				checkContention(c, t, *rc.Cont)
 			default:
 				c.HarnessError("bad replay part %q", rc.Part)
 			}
@@ -108,6 +111,9 @@ func TestCheck(t *testing.T) {
 
 		// ---- OUTBOUND ----
 		part := os.Getenv("C17_PART") // debugging aid: run one part only
+		if part == "" || part == "cont" {
+			partContention(c, t)
+		}
 		t0 := time.Now()
 		lap := func(name string) {
 			c.Set("sum_cpu_wall_s_"+name, time.Since(t0).Seconds()) // evidence only, never an oracle
